@@ -14,9 +14,20 @@ The outcomes at the authorization-server metadata locations are independent: aft
 environment scripts the later ones too (UnreadASM), so "rejected document at location i, then 4xx at every later location"
 is replayed for every i and every fatal outcome (checked below); OAuthFlow_wit.cfg (discovery that goes on after a fatal
 outcome) must violate NoFallbackAfterRejected, which shows that the design invariant is not vacuous.
+
+Interleaving dimension: spec/OAuthFlowConc.tla - N Authorize calls in flight on ONE handler, each cut into the blocks
+Meta / Reg / Callback / Token / Install between the points where the SDK enters the environment; the environment chooses
+the server of every attempt and what each fetcher returns (its own answer, the answer to ANOTHER attempt's request, the
+stale answer of a finished attempt, a wrong iss).  TLC checks the per-attempt invariants (ExchangeOnlyOwnState,
+MetaBoundToAttempt, PreregBoundToIssuer, NoTokenAfterFailure; VerifierBoundToAttempt, ClientBoundToAttempt,
+ResourceBoundToAttempt, TokenFromOwnExchange), the what-if configurations OAuthFlowConc_w*.cfg (one datum of an attempt
+kept in a cell of the handler) MUST each violate their invariant, and the state graph (`-dump dot,actionlabels`) gives the
+complete schedules: all of them for 2 attempts, a seeded sample for 3 (thorough).  harness/auth/c15_conc_test.go pins each
+schedule on the real handler with gates (no sleeps); spec/OAuthFlowConcMon.tla judges every attempt by its own request.
 """
 import json, os, random, sys
 from collections import deque
+from concurrent.futures import ThreadPoolExecutor
 import vlib, graphwalk
 
 PID = "C15"
@@ -287,6 +298,227 @@ def sig_for(e, inv, failed_invs):
 
 
 # --------------------------------------------------------------------------
+# interleaving dimension: spec/OAuthFlowConc.tla, harness/auth/c15_conc_test.go, spec/OAuthFlowConcMon.tla
+
+CONC_ACTIONS = ["Handler", "Meta", "Reg", "Callback", "Token", "Install"]
+# what-if configurations (one per-attempt datum kept in a cell of the handler) and the invariant each MUST violate
+CONC_WITNESSES = [("state", "ExchangeOnlyOwnState"), ("verifier", "VerifierBoundToAttempt"), ("meta", "MetaBoundToAttempt"),
+                  ("client", "ClientBoundToAttempt"), ("resource", "ResourceBoundToAttempt"), ("token", "TokenFromOwnExchange")]
+CONC3_UNIFORM, CONC3_WALKS = 40000, 10000  # thorough: seeded sample of the complete schedules of 3 attempts
+CONC_HARNESS = ["auth/c15_oauthflow_test.go", "auth/c15_conc_test.go"]
+# what the drift clauses of OAuthFlowConcMon say (OAuthFlowConc invariants beyond the text of C15)
+CONC_DRIFT = {"drift:verifier": "VerifierBoundToAttempt: the code_verifier an attempt sends is not the one whose S256 challenge went out with its authorization request",
+              "drift:client": "ClientBoundToAttempt: the client id in an attempt's token request is not the one of its authorization request / its own registration",
+              "drift:resource": "ResourceBoundToAttempt: the resource parameter of an attempt is not the URL it was called for",
+              "drift:redirect": "the redirect_uri of an attempt's token request differs from the one of its authorization request",
+              "drift:code": "the code an attempt redeems is not the one in the callback it was given",
+              "drift:install": "TokenFromOwnExchange: the token an attempt installs is not the one issued to its own token request",
+              "drift:outcome": "an attempt ends otherwise than OAuthFlowConc specifies"}
+
+
+def conc_dump(cfg, workers=1):
+    wd = vlib.scratch("tlc-")
+    dot = os.path.join(wd, "conc.dot")
+    res = vlib.run_tlc("OAuthFlowConc", cfg, workdir=wd, workers=workers, timeout=600, heap_gb=3,
+                       extra_args=["-dump", "dot,actionlabels", dot, "-noGenerateSpecTE"])
+    vlib.tlc_must_pass(res, cfg)
+    if not res.ok:
+        raise vlib.MachineryError("OAuthFlowConc (%s) violates its own invariant %s: the model is broken" % (cfg, res.violation))
+    root, edges = load_graph(dot)
+    return res, root, edges
+
+
+def conc_finished(done, name, a):
+    """book-keeping: the attempts whose Authorize has returned after this step of a schedule"""
+    if name == "Install" or (name == "Callback" and a[3] != "pass") or (name == "Token" and a[1] != "good") or (name == "Meta" and a[2] != "go"):
+        done.add(a[0])
+
+
+def conc_overlap(steps):
+    """a Callback(i, other j, ..): attempt i is handed the answer to attempt j's request while j is still in flight"""
+    done = set()
+    for name, a in steps:
+        if name == "Callback" and a[1] == "other" and a[2] not in done:
+            return True
+        conc_finished(done, name, a)
+    return False
+
+
+def conc_model(tier, seed, only=None):
+    """TLC on OAuthFlowConc: design invariants, what-if witnesses, schedules.  Returns {"tlc": [(name, res)], "rows": [...], "cov": {...}}"""
+    tlc, cov = [], {}
+    if only is not None:
+        return {"tlc": tlc, "rows": [only], "cov": {"rule": "replay of one recorded schedule"}}
+    cfg2 = "OAuthFlowConc.cfg" if tier == "quick" else "OAuthFlowConc_t.cfg"
+    res, root, edges = conc_dump(cfg2)
+    tlc.append(("%s (2 attempts on one handler: per-attempt invariants; state graph = all complete schedules)" % cfg2, res))
+    paths = all_paths(root, edges, 100000)
+    rows = [{"id": "conc2-%d" % i, "steps": steps_of(p)} for i, p in enumerate(sorted(paths))]
+    cov["schedules_2_attempts"] = len(rows)
+    seen = {s[0] for r in rows for s in r["steps"]}
+    kinds = {(s[1][1], s[1][3]) for r in rows for s in r["steps"] if s[0] == "Callback"}
+    need = {("own", "pass"), ("other", "state"), ("stale", "state"), ("badiss", "iss")}
+    if [a for a in CONC_ACTIONS if a not in seen] or need - kinds or not any(conc_overlap(r["steps"]) for r in rows):
+        raise vlib.MachineryError("vacuity: schedule export of %s lacks %s / %s" % (cfg2, [a for a in CONC_ACTIONS if a not in seen], sorted(need - kinds)))
+    cov["schedules_with_foreign_callback_in_flight"] = sum(1 for r in rows if conc_overlap(r["steps"]))
+    wits = CONC_WITNESSES if tier == "thorough" else CONC_WITNESSES[:1]
+    cov["whatif"] = {}
+    for field, inv in wits:
+        cfg = "OAuthFlowConc_w%s.cfg" % field
+        w = vlib.run_tlc("OAuthFlowConc", cfg, workers=1, timeout=300, heap_gb=2, extra_args=("-noGenerateSpecTE",))
+        vlib.tlc_must_pass(w, cfg)
+        tlc.append(("%s (what-if: the %s of an attempt kept in a cell of the handler: %s must fail)" % (cfg, field, inv), w))
+        if w.violation != inv:
+            raise vlib.MachineryError("what-if %s (shared %s) must violate %s; got %s" % (cfg, field, inv, w.violation or "no violation"))
+        cov["whatif"][field] = "violates %s (as required)" % inv
+    rule = "all %d complete schedules of 2 attempts (%s)" % (len(rows), cfg2)
+    if tier == "thorough":
+        res3, root3, edges3 = conc_dump("OAuthFlowConc3.cfg", workers=2)
+        tlc.append(("OAuthFlowConc3.cfg (3 attempts on one handler: per-attempt invariants; state graph)", res3))
+        cnt3 = path_counts(root3, edges3)
+        p3 = sample_paths(root3, edges3, cnt3, CONC3_UNIFORM, seed, True) + sample_paths(root3, edges3, cnt3, CONC3_WALKS, seed + 7919, False)
+        uniq = sorted({tuple(p) for p in p3})
+        rows += [{"id": "conc3-%d" % i, "steps": steps_of(list(p))} for i, p in enumerate(uniq)]
+        cov["schedules_3_attempts_total"], cov["schedules_3_attempts_replayed"] = cnt3[root3], len(uniq)
+        rule += "; a seeded sample of %d of the %d complete schedules of 3 attempts (uniform + random walks)" % (len(uniq), cnt3[root3])
+    cov["rule"] = rule
+    return {"tlc": tlc, "rows": rows, "cov": cov}
+
+
+def conc_env(out, rows):
+    cin, cobs = os.path.join(out, "conc.ndjson"), os.path.join(out, "obs_conc.ndjson")
+    vlib.write_ndjson(cin, rows)
+    if os.path.exists(cobs):
+        os.remove(cobs)
+    return cin, cobs
+
+
+# (the four predicates below mirror OAuthFlowConcMon and only NAME the failing attempt; the verdict is the monitor's)
+def _c_state_own(a):
+    return a["auth"]["called"] and a["cb"]["got"] and a["auth"]["state"] != "" and a["cb"]["state"] == a["auth"]["state"]
+
+
+def _c_iss_own(a):
+    iss = a["cb"]["iss"]
+    return (iss == "" or iss == a["issuer"]) and (not a["adv"] or iss != "")
+
+
+def _c_meta_own(a):
+    rs = a["regs"] + a["toks"]
+    return all(r["as"] == a["asked"] and a["asked"] != "" for r in rs) and (not a["auth"]["called"] or a["auth"]["as"] == a["asked"] != "") \
+        and (a["issuer"] == "" or a["issuer"] == a["asked"])
+
+
+def _c_pre_own(e, a):
+    pid, piss = e["cfg"]["preid"], e["cfg"]["preiss"]
+    return all(t["client"] != pid or t["as"] == piss for t in a["toks"]) and \
+        (not (a["auth"]["called"] and a["auth"]["client"] == pid) or a["auth"]["as"] == piss)
+
+
+def conc_context(e, a, steps):
+    """the abstract situation of attempt a: registration, the callback it was given, what the attempt that callback belongs to was
+    doing, same / another server"""
+    cb = a["cb"]
+    kind = cb["kind"] if cb["got"] else "none"
+    ctx = "reg=%s:cb=%s" % (e["cfg"]["reg"], kind)
+    if kind == "other" and 1 <= cb["from"] <= len(e["att"]):
+        b = e["att"][cb["from"] - 1]
+        ctx += ",server=%s" % ("same" if b["srv"] == a["srv"] else "other")
+        done = set()  # was the owner of the callback still in flight when it was delivered?
+        for name, args in steps or []:
+            if name == "Callback" and args[0] == a["att"]:
+                ctx += ",owner=%s" % ("finished" if cb["from"] in done else "in-flight")
+                break
+            conc_finished(done, name, args)
+    ctx += ":iss-advertised=%d" % int(a["adv"])
+    return ctx
+
+
+def conc_sigs(e, inv, steps):
+    """signatures of one monitor failure (names the attempts the clause fails for)"""
+    n = len(e["att"])
+    out = []
+    for a in e["att"]:
+        bad, got = False, "?"
+        if inv == "ExchangeOnlyOwnState":
+            bad = any(t["grant"] == "authorization_code" for t in a["toks"]) and not (_c_state_own(a) and _c_iss_own(a))
+            got = "exchanged:state=%s,iss=%s" % ("own" if _c_state_own(a) else "not-own", "ok" if _c_iss_own(a) else "bad")
+        elif inv == "UsedOnlyIfMatching":
+            bad, got = not _c_meta_own(a), "endpoint-of-other-metadata"
+        elif inv == "PreregBoundToIssuer":
+            bad, got = not _c_pre_own(e, a), "prereg-credentials-to-other-issuer"
+        elif inv == "NoTokenAfterFailure":
+            seen = {s["token"] for s in e["snaps"]} | {x["after"] for x in e["att"]} | {e["final"]}
+            passed = _c_state_own(a) and _c_iss_own(a) and _c_meta_own(a) and _c_pre_own(e, a)
+            bad, got = (not passed) and any(t in seen for t in a["issued"]), "token-of-failed-attempt-installed"
+        elif inv == "NoPanic":
+            bad, got = a["panic"] != "", "panic"
+        if bad:
+            out.append("conc[%d]:%s:%s:%s" % (n, inv, conc_context(e, a, steps), got))
+    return sorted(set(out)) or ["conc[%d]:%s:?" % (n, inv)]
+
+
+def conc_judge(v, crun, cobs, go_out):
+    """monitor verdict over the observations of the replayed schedules; returns (TLC result, schedules replayed, violations, drift
+    lines): the caller reports them after those of the sequential behaviours"""
+    rows = crun["rows"]
+    viols, drifts = [], []
+    if not os.path.exists(cobs):
+        raise vlib.MachineryError("C15 concurrent harness wrote no observations:\n" + go_out[-2000:])
+    obs = vlib.read_ndjson(cobs)
+    if len(obs) != len(rows):
+        raise vlib.MachineryError("concurrent harness replayed %d of %d schedules" % (len(obs), len(rows)))
+    broken = [e for e in obs if e["fail"]]
+    stuck = [e for e in obs if any(str(s["token"]).startswith("!") for s in e["snaps"]) or str(e["final"]).startswith("!")]
+    if broken or stuck:
+        e = (broken or stuck)[0]
+        raise vlib.MachineryError("the replay of schedule %s broke down: %s" % (e["id"], e["fail"] or "TokenSource() did not answer"))
+    fails, mres = vlib.run_monitor("OAuthFlowConcMon", "OAuthFlowConcMon.cfg", cobs, timeout=900, heap_gb=4)
+    by_line = {}
+    for f in fails:
+        by_line.setdefault(f["line"], []).append(f["monfail"])
+    steps_by_id = {r["id"]: r["steps"] for r in rows}
+    ndrift, drift_kinds = 0, {}
+    for line, invs in sorted(by_line.items()):
+        e = obs[line - 1]
+        steps = steps_by_id.get(e["id"])
+        for inv in invs:
+            if inv.startswith("drift"):
+                ndrift += 1
+                drift_kinds[inv] = drift_kinds.get(inv, 0) + 1
+                if drift_kinds[inv] <= 3:
+                    det = "; ".join("attempt %d: %s via %s (OAuthFlowConc: %s via %s)" % (a["att"], a["err"], "/".join(a["path"]), a["expres"], "/".join(a["exppath"]))
+                                    for a in e["att"] if a["err"] != a["expres"] or a["path"] != a["exppath"])
+                    drifts.append("schedule %s (%d attempts on one handler): %s (%s)%s" % (e["id"], e["n"], inv, CONC_DRIFT.get(inv, "?"), (" - " + det) if det else ""))
+                continue
+            for sig in conc_sigs(e, inv, steps):
+                viols.append((sig, "real Authorize violates %s with %d attempts in flight on one handler (schedule %s: %s)" % (
+                    inv, e["n"], e["id"], " ".join("%s(%s)" % (s[0], ",".join(str(x) for x in s[1])) for s in (steps or []))),
+                    {"conc": {"id": e["id"], "steps": steps}, "observation": e}))
+    cov = dict(crun["cov"])
+    cov.update({"schedules_replayed": len(obs), "attempts": sum(e["n"] for e in obs),
+                "token_requests": sum(len(a["toks"]) for e in obs for a in e["att"]),
+                "attempts_refused_at_state_check": sum(1 for e in obs for a in e["att"] if a["err"] == "state"),
+                "attempts_refused_at_iss_check": sum(1 for e in obs for a in e["att"] if a["err"] == "iss"),
+                "attempts_ok": sum(1 for e in obs for a in e["att"] if a["err"] == "ok"),
+                "drift_count": ndrift, "drift_kinds": drift_kinds})
+    v.cov["concurrent"] = cov
+    return mres, len(obs), viols, drifts
+
+
+def conc_report(v, viols, drifts):
+    """one representative of every violated clause first (vlib prints the first dozen)"""
+    firsts, later, seen = [], [], set()
+    for x in viols:
+        k = x[0].split(":")[1]
+        (later if k in seen else firsts).append(x)
+        seen.add(k)
+    for sig, desc, rep in firsts + later:
+        v.violation(sig, desc, rep)
+    v.drift.extend(drifts)
+
+
+# --------------------------------------------------------------------------
 
 
 def run(tier, seed, replay):
@@ -306,6 +538,15 @@ def run(tier, seed, replay):
         "URL classes (scheme class https / http / script-capable x authority class loopback / other / none x form hierarchical / "
         "opaque) are computed by the harness with net/url and net/netip; 'an https or loopback URL' is read as: scheme https, or a "
         "loopback authority under a scheme that is not script-capable (javascript://localhost/... is not a safe request target)",
+        "interleavings: N Authorize calls in flight on ONE handler (the doc comments of auth/authorization_code.go state no "
+        "restriction on concurrent use; `mu` is documented as protecting concurrent access), each cut into the blocks Meta / Reg / "
+        "Callback / Token / Install of OAuthFlowConc.tla = the code between two points where the SDK enters the environment "
+        "(registration request, fetcher, token request, NewTokenSource); a schedule is pinned with gates at those points, one attempt "
+        "runs at a time, attempts are told apart by a context value; interleavings INSIDE a block (e.g. between generating the state "
+        "and invoking the fetcher) are not enumerated; 'the state generated for this attempt' is read as the state parameter of the "
+        "authorization URL that attempt's fetcher was handed; the scripted token endpoint answers whatever it is sent; values of one "
+        "attempt showing up in another attempt's requests (code_verifier, client id from registration, resource, redirect_uri) are "
+        "beyond the text of C15 and reported as drift",
     ]
     out = vlib.outdir(PID)
     rep = None
@@ -319,7 +560,25 @@ def run(tier, seed, replay):
         if f.startswith("violation-") and f.endswith(".json"):
             os.remove(os.path.join(out, f))
     workers = min(4, vlib.NCPU)
-    # 1. design: exhaustive model check of the invariants
+    # 0. interleaving dimension: a recorded concurrent schedule is replayed alone; otherwise TLC on OAuthFlowConc runs beside the
+    # design check of OAuthFlow (a replay of a recorded sequential behaviour leaves the concurrent part out)
+    if rep and isinstance(rep.get("replay"), dict) and rep["replay"].get("conc"):
+        crun = conc_model(tier, seed, only=rep["replay"]["conc"])
+        cin, cobs = conc_env(out, crun["rows"])
+        rc_go, gout, wall = vlib.go_test("auth", "^TestVerif_C15Conc$", CONC_HARNESS,
+                                         env={"VERIF_IN2": cin, "VERIF_OUT2": cobs, "VERIF_SEED": seed}, timeout=900)
+        vlib.go_must_build(rc_go, gout, PID)
+        if rc_go != 0:
+            raise vlib.MachineryError("C15 concurrent harness failed:\n" + gout[-3000:])
+        mres, nobs, cviols, cdrifts = conc_judge(v, crun, cobs, gout)
+        conc_report(v, cviols, cdrifts)
+        v.add_tlc("OAuthFlowConcMon", mres)
+        v.cov["evaluations"] = v.cov["traces_validated_against_impl"] = nobs
+        v.cov["rule"] = crun["cov"]["rule"]
+        v.cov["exhaustive"] = False
+        return v.finish()
+    pool = ThreadPoolExecutor(max_workers=2)
+    conc_future = None if replay else pool.submit(conc_model, tier, seed)
     res = vlib.run_tlc("OAuthFlowMC", "OAuthFlow_mc.cfg", workers=workers, timeout=600, heap_gb=4)
     vlib.tlc_must_pass(res, "OAuthFlow_mc.cfg")
     v.add_tlc("OAuthFlow_mc.cfg (design invariants, all variant sets)", res)
@@ -424,8 +683,15 @@ def run(tier, seed, replay):
     vlib.write_ndjson(scripts, rows)
     # 3. the real code
     obs = os.path.join(out, "obs.ndjson")
-    rc_go, gout, wall = vlib.go_test("auth", "^TestVerif_C15$", ["auth/c15_oauthflow_test.go"],
-                                     env={"VERIF_IN": scripts, "VERIF_OUT": obs, "VERIF_SEED": seed}, timeout=900)
+    crun = conc_future.result() if conc_future else None
+    genv = {"VERIF_IN": scripts, "VERIF_OUT": obs, "VERIF_SEED": seed}
+    if crun:
+        for name, res in crun["tlc"]:
+            v.add_tlc(name, res)
+        cin, cobs = conc_env(out, crun["rows"])
+        genv.update({"VERIF_IN2": cin, "VERIF_OUT2": cobs})
+    rc_go, gout, wall = vlib.go_test("auth", "^TestVerif_C15(Conc)?$" if crun else "^TestVerif_C15$", CONC_HARNESS,
+                                     env=genv, timeout=900)
     vlib.go_must_build(rc_go, gout, PID)
     if rc_go != 0:
         raise vlib.MachineryError("C15 harness failed:\n" + gout[-3000:])
@@ -482,7 +748,8 @@ def run(tier, seed, replay):
             raise vlib.MachineryError("vacuity: issuer relation classes never concretised: %s" % missing_rel)
     for e in obs_rows[:: max(1, len(obs_rows) // 4)][:4]:
         v.sample({"id": e["id"], "requests": [[r["method"], r["url"]] for r in e["reqs"]], "err": e["out"]["err"], "changed": e["out"]["changed"]})
-    # 4. the monitor: verdict and drift
+    # 4. the monitors: verdict and drift (the concurrent one runs beside the sequential one)
+    cjudge = pool.submit(conc_judge, v, crun, cobs, gout) if crun else None
     fails, mres = vlib.run_monitor("OAuthFlowMon", "OAuthFlowMon.cfg", obs, timeout=900, heap_gb=6)
     v.add_tlc("OAuthFlowMon", mres)
     by_line = {}
@@ -503,6 +770,14 @@ def run(tier, seed, replay):
                 v.violation(sig, "real Authorize violates %s (behaviour %s: err=%s changed=%s)" % (inv, e["id"], e["out"]["err"], e["out"]["changed"]),
                             {"id": e["id"], "steps": steps_by_id.get(e["id"]), "observation": e})
     v.cov["drift_count"] = ndrift
+    if cjudge:
+        cmres, nconc, cviols, cdrifts = cjudge.result()
+        conc_report(v, cviols, cdrifts)
+        v.add_tlc("OAuthFlowConcMon", cmres)
+        v.cov["evaluations"] += nconc
+        v.cov["traces_validated_against_impl"] += nconc
+        v.cov["distinct_nontrivial"] += nconc
+        v.cov["rule"] += "; interleavings: " + v.cov["concurrent"]["rule"] + ", each pinned on one real handler with gates"
     # leads of the model must show up on the real code, otherwise the model is stale
     found = set(v.known_hit) | {s for (s, _, _) in v.violations}
     for inv in leads:
